@@ -209,7 +209,7 @@ def resize(repo: Repo) -> List[Ob]:
     # the highest-occupied-level helpers: last non-zero index
     for hq, form in (("ops:num_quanta_vector", "vector"), ("ops:num_quanta_matrix", "matrix")):
         h = repo.func(hq)
-        txt = src(h.node)
+        txt = repo.closure_src(h)
         uses_last = "[-1]" in txt and ("nonzero" in txt or "where" in txt)
         uses_max = "max(" in txt if form == "matrix" else True
         (obs.append(ok("RESIZE", h, "highest-occupied", P, h.node, "returns the last non-zero index")) if uses_last and uses_max else
